@@ -14,7 +14,7 @@
    ([erasable]) are faces whose erased cells look like printed spaces. *)
 From Coq Require Import List NArith Bool Arith.
 From SNT Require Import Render.Cell Render.Screen Render.Frame Render.Domain Render.Spec
-  Render.GridLemmas Render.ExecProofs Render.Den Render.ShowProofs Render.HistoryProofs.
+  Render.GridLemmas Render.ExecProofs Render.Den Render.ShowProofs Render.HistoryProofs Render.Loop Render.LoopProofs.
 Import ListNotations.
 
 (* what [show] means, cell by cell: under an image a blank in the image's face, behind a wide
@@ -89,6 +89,27 @@ Theorem C01_clear_then_frame : forall o h w st scr,
   sgrid scr' = sgrid (show o h w (front st)) /\ err scr' = false.
 Proof. exact clear_then_frame. Qed.
 
+(* RENDER LOOP with frame dropping (Terminal::run_render and its output queue, Render/Loop.v): the
+   handler draws, then either frame(), or - when frames_pending() exceeds TERMINAL_FRAMES_DROP
+   (regenerated from the source) - frames_drop(); clear(); frame().  The terminal executes only what
+   is delivered: every chunk (the commands between two polls) whole or not at all, a drop keeps a
+   prefix of the pending chunks (interface proved for the real queue by C16_frames,
+   C16_frames_flush_delimited, C16_render_loop_schema).  For every session - what is drawn, how many
+   chunks the tty takes at each poll, what frames_pending() answers, how many pending chunks survive
+   each drop - after EVERY delivered frame the terminal displays show(S) of the surface drawn for
+   that frame, unless some drop left an image on the terminal whose ImageErase was dropped (second
+   component of loop_spec; known class DroppedImageErase). *)
+Theorem C01_render_loop : forall o h w its,
+  oracle_ok o -> good_iters o h w its ->
+  let out := loop_model o (rnew h w false) 0 its in
+  snd (loop_spec o h w (blank_screen h w) [] (gmake h w cell_default) its out) = false ->
+  fst (loop_spec o h w (blank_screen h w) [] (gmake h w cell_default) its out) = true.
+Proof.
+  intros o h w its Hok Hgood. cbv zeta.
+  exact (render_loop_correct o h w its (rnew h w false) 0 (blank_screen h w) [] (gmake h w cell_default)
+                             Hok (linv_init o h w Hok) Hgood).
+Qed.
+
 (* known classes OverlapImages / OverlapWideImage: with an image on a cell that another image or a
    wide character occupies the statement is false on the faithful model; one witness per sub-class.
    (Wide characters hiding one another are inside the theorems.) *)
@@ -126,6 +147,48 @@ Theorem C01_overlap_images_refuted : refuted_by overlap_images_ops.
 Proof. refute. Qed.
 Theorem C01_overlap_wide_image_refuted : refuted_by overlap_wide_image_ops.
 Proof. refute. Qed.
+
+(* known class DroppedImageErase: frame 1 places an image and is delivered; frame 2 (which erases it)
+   is still pending when frame 3 finds the queue too long: frame 2 is dropped, clear() erases only the
+   images of the back buffer, the image stays on the terminal *)
+Definition stale_session : list iter :=
+  [mkiter 0 [[img 0%N 0%N; cell_default]] AWait None 1;
+   mkiter 1 [[cell_default; cell_default]] AWait None 1;
+   mkiter 0 [[chr 0%N 97%N; cell_default]] AWait (Some 40) 0].
+
+Theorem C01_dropped_image_erase_refuted :
+  oracle_ok overlap_oracle /\ good_iters overlap_oracle 1 2 stale_session
+  /\ loop_spec overlap_oracle 1 2 (blank_screen 1 2) [] (gmake 1 2 cell_default) stale_session
+               (loop_model overlap_oracle (rnew 1 2 false) 0 stale_session) = (false, true).
+Proof.
+  split; [repeat split|]. split.
+  - unfold stale_session, good_iters. repeat constructor; vm_compute; reflexivity.
+  - vm_compute. reflexivity.
+Qed.
+
+(* non-vacuity of C01_render_loop: 34 frames pile up (the tty takes nothing), the 35th iteration finds
+   33 > TERMINAL_FRAMES_DROP pending: frames_drop keeps the front chunk, clear, frame; then everything
+   is delivered *)
+Definition pile_session : list iter :=
+  repeat (mkiter 0 [[chr 1%N 97%N; chr 0%N 19990%N; cell_default]] AWait None 1) 17
+  ++ repeat (mkiter 0 [[chr 0%N 19990%N; cell_default; chr 2%N 98%N]] AWait None 1) 17
+  ++ [mkiter 0 [[chr 0%N 120%N; chr 0%N 19990%N; cell_default]] AWait None 1;
+      mkiter 9 [[chr 0%N 120%N; chr 0%N 121%N; cell_default]] AWaitNoFrame None 1;
+      mkiter 0 [[chr 0%N 120%N; chr 0%N 121%N; cell_default]] AWait None 1].
+
+Example C01_render_loop_nonvacuous :
+  good_iters overlap_oracle 1 3 pile_session
+  /\ existsb fst (loop_model overlap_oracle (rnew 1 3 false) 0 pile_session) = true
+  /\ loop_spec overlap_oracle 1 3 (blank_screen 1 3) [] (gmake 1 3 cell_default) pile_session
+               (loop_model overlap_oracle (rnew 1 3 false) 0 pile_session) = (true, false).
+Proof.
+  split; [|split; vm_compute; reflexivity].
+  assert (Hb : forallb (fun it => in_domain overlap_oracle 1 3 (it_draw it)
+                                  && no_image_overlap overlap_oracle 1 3 (it_draw it)) pile_session = true)
+    by (vm_compute; reflexivity).
+  apply Forall_forall. intros it Hin. rewrite forallb_forall in Hb. specialize (Hb it Hin).
+  apply andb_true_iff in Hb. exact Hb.
+Qed.
 
 Check C01_history : forall o h w ops,
   oracle_ok o -> good_ops o h w ops ->
